@@ -1,4 +1,30 @@
-(* C13 — theorems in progress; this file is replaced as they are proved *)
-From AB Require Import Check.WorldCheck.
-Theorem c13_placeholder : True. Proof. exact I. Qed.
-Print Assumptions c13_placeholder.
+(* C13 — only the fully authenticated owner, proving the factor, changes 2FA settings (partial:
+   the gate and the e-mail authorisation are proved; the field-change discipline per route is
+   decided by pred_c13 on the implementation). *)
+From AB Require Import World.Handlers Proofs.MonadInv Proofs.Gate Proofs.Misc.
+
+(* every 2FA settings route (setup, confirm, remove, regen, e-mail verify) runs behind
+   MountedMiddleware2(…, RequireFullAuth, …): its handler runs only if the session carries no
+   half-auth mark and names a user that storage holds, who is then the context user *)
+Theorem c13_gate : forall E mp fr h h',
+  auth_middleware E mp true false fr h = (Ok true, h') ->
+  ahas k_halfauth (e_sess E) = false /\
+  (h_cuser h = None -> h_cpid h = None ->
+     bempty (aget k_uid (e_sess E)) = false /\
+     exists u, ulookup (aget k_uid (e_sess E)) (s_users (h_st h)) = Some u /\ h_cuser h' = Some u).
+Proof.
+  intros E mp fr h h' Eq. destruct (auth_middleware_admits E mp true false fr h h' Eq) as (R & _ & G & _).
+  split; [|exact G]. unfold reqs_ok in R. simpl in R. rewrite andb_true_r in R.
+  destruct (ahas k_halfauth (e_sess E)); [discriminate R|reflexivity].
+Qed.
+Print Assumptions c13_gate.
+
+(* the e-mail authorisation mark is only ever written by a verify-end request that presents a
+   non-empty token equal to the one in the session *)
+Theorem c13_email_end_needs_token : forall E k h r h' ls,
+  email_verify_end E k h = (r, h') -> h_sev h' = h_sev h ++ ls ->
+  (exists v, In (Put k_2fa_authed v) ls) ->
+  bempty (aget k_2fa_token (e_sess E)) = false /\
+  aget f_token (values E) = aget k_2fa_token (e_sess E).
+Proof. exact email_verify_end_needs_token. Qed.
+Print Assumptions c13_email_end_needs_token.
